@@ -5,6 +5,7 @@ import (
 	"go/constant"
 	"go/token"
 	"go/types"
+	"regexp"
 	"sort"
 	"strings"
 
@@ -928,4 +929,62 @@ func nodeTreeContains(fn *ssa.Function, root ssa.Value, pred func(*ssa.Alloc) bo
 		return false
 	}
 	return walk(root, 0)
+}
+
+// liftParams rewrites `param:<p>` sub-terms of terms computed inside fn into the terms of the actual arguments at fn's
+// static call sites (one level): the view a caller has of a value that a refactoring moved into a helper.
+func liftParams(L *Loaded, scope []*ssa.Function, fn *ssa.Function, terms []string) []string {
+	root := fn
+	for root.Parent() != nil {
+		root = root.Parent()
+	}
+	need := false
+	for _, t := range terms {
+		for _, p := range root.Params {
+			if strings.Contains(t, "param:"+p.Name()) {
+				need = true
+			}
+		}
+	}
+	if !need {
+		return terms
+	}
+	var sites []callSite
+	for _, g := range scope {
+		for _, cs := range callsIn(g) {
+			if cal := cs.common.StaticCallee(); cal != nil && originOf(cal) == root {
+				sites = append(sites, cs)
+			}
+		}
+	}
+	if len(sites) == 0 {
+		return terms
+	}
+	out := []string{}
+	for _, cs := range sites {
+		s := newSym(L, map[string]bool{})
+		s.maxD = 0
+		for _, t := range terms {
+			cur := []string{t}
+			for i, p := range root.Params {
+				if i >= len(cs.common.Args) {
+					continue
+				}
+				re := regexp.MustCompile(`param:` + regexp.QuoteMeta(p.Name()) + `\b`)
+				var next []string
+				for _, c0 := range cur {
+					if !re.MatchString(c0) {
+						next = append(next, c0)
+						continue
+					}
+					for _, v := range s.eval(cs.common.Args[i]) {
+						next = append(next, re.ReplaceAllLiteralString(c0, v))
+					}
+				}
+				cur = next
+			}
+			out = append(out, cur...)
+		}
+	}
+	return uniq(out)
 }
